@@ -12,7 +12,8 @@ table = subprocess.run([sys.executable, os.path.join(HERE, "tools", "seed_table.
 summary = table.stderr.strip()
 INTRO = """### 10.5 Seeded changes (independent sub-agents) and which check catches them
 
-Six rounds of seeding were run during the build. In each round a fresh sub-agent per property saw
+Seven rounds of seeding were run during the build (the sixth in two halves, the seventh for sixteen
+of the eighteen claimed properties). In each round a fresh sub-agent per property saw
 only the property text (statement, quantifier, mechanisms, observation points) and its own scratch
 git worktree — nothing from `/verif` — and produced two changes that break the property, pass the
 full unedited test suite and come with a demonstration program. From round 3 on the prompt also
@@ -24,12 +25,21 @@ tree (passes), the demo with the patch (fails) and the full test suite with the 
 load-sensitive test that fails once is re-run alone twice). `tools/eval_seed.sh` runs the
 property's registered quick check against a scratch worktree with the patch applied (`SX_SRC`),
 never inside `/repo`; results and the violated labels are stored in each `seeded/*/meta.json`, and
-`./check selftest --seeds` repeats the whole matrix. Four patches were rebased by hand after a
-`fix:` commit touched their lines (noted in their meta.json).
+`./check selftest --seeds` repeats the whole matrix. Seven patches were rebased by hand after a
+`fix:` commit touched their lines (noted in their meta.json); every demo was re-run against the
+final `/repo` HEAD (`at_head` in meta.json).
 
 **What the rounds showed.** Rounds 1-2 (44 changes): about 10 were missed at first. Round 3 (34): 8
 missed. Round 4 (36, aimed at untouched clauses): 15 missed. Round 5 (35): 12 missed (counting five
-that I pre-empted from the agents' summaries before their evaluation). Round 6 (17): 9 missed. Every miss led to a stronger
+that I pre-empted from the agents' summaries before their evaluation). Round 6 (17 + 18): 9 + 6 missed
+(C16 65536 frames through one encoder -> inductive `vp8-stream`; C04 digest cache keyed by serial
+number -> `digest`; C12 RTX on a later encoding, BYE with reason text -> `register-rtx` layouts,
+`rtcp-wire`; C15 abs-send-time 0 dropped by a truthiness test, class-level SSRC table ->
+`receiver-feed`, `two-estimators`; C09 whitespace-only fmtp segment -> untidy lists in
+`fmtp-spacing`). Round 7: misses were C04 (a compound RTCP datagram cut short after an unroutable
+packet -> `rtcp-delivery`), C10 x2 (RTX arrival x jitter buffer -> `receiver-pli` with a
+retransmitted packet), C12 (SR with two report blocks -> `rtcp-wire`), C09 (a role without
+fingerprints -> `description` with 0..2 fingerprints); see the table for the rest. Every miss led to a stronger
 check, except the one that stays outside the claimed scope (below). The sub-agents' side remarks about the *unmodified* tree (asked for explicitly in round 6) pointed
 at a dozen genuine defects, each of which was first reproduced by a strengthened check and then
 repaired (section 10.3). The recurring reasons for a miss, and
